@@ -5,6 +5,7 @@ import (
 	"go/constant"
 	"go/token"
 	"go/types"
+	"os"
 	"sort"
 	"strings"
 
@@ -122,9 +123,12 @@ type maState struct {
 	leaves  []Leaf
 	in, out map[*ssa.BasicBlock]bitset
 	edgeGen map[[2]*ssa.BasicBlock][]egen // leaves that become clean along an edge (callee succeeded)
-	// loop gens and blocked calls are recomputed in every pass; the previous pass feeds the joins
+	// Loop gens and the set of calls whose gens may be used (all their other arguments are
+	// old-independent) depend on the states, and the states on them. They are computed in rounds:
+	// each round solves the dataflow from scratch with the sets justified by the previous round
+	// (starting from none), so the sets only grow and every member is justified without itself.
 	loopGen, loopGenPrev map[[2]*ssa.BasicBlock][]int
-	blocked, blockedPrev map[*ssa.Call]bool
+	allowed, allowedPrev map[*ssa.Call]bool
 	// facts gathered during the final pass
 	taintedLoad  map[ssa.Value]bool
 	allocTainted map[*ssa.Alloc]bool
@@ -148,7 +152,7 @@ func (s *maState) edgeLeaves(p, b *ssa.BasicBlock) []int {
 	var out []int
 	k := [2]*ssa.BasicBlock{p, b}
 	for _, g := range s.edgeGen[k] {
-		if !s.blockedPrev[g.call] {
+		if s.allowedPrev[g.call] {
 			out = append(out, g.leaf)
 		}
 	}
@@ -232,58 +236,40 @@ func (m *MustAssigner) Analyse(fn *ssa.Function, p int) *MustAssignResult {
 	s.prepareCalls()
 	s.prepareEdges()
 
-	// greatest fixpoint: everything clean except at entry
 	top := make(bitset, n)
 	for i := range top {
 		top[i] = true
 	}
-	for _, b := range fn.Blocks {
-		s.in[b] = top.copy()
-		s.out[b] = top.copy()
-	}
-	s.in[fn.Blocks[0]] = make(bitset, n)
-	for iter := 0; iter < 100; iter++ {
-		changed := false
-		s.resetFacts()
-		for _, b := range fn.Blocks {
-			if b != fn.Blocks[0] {
-				var acc bitset
-				for _, p := range b.Preds {
-					o := s.out[p].copy()
-					for _, g := range s.edgeLeaves(p, b) {
-						o[g] = true
-					}
-					if acc == nil {
-						acc = o
-					} else {
-						acc = acc.and(o)
-					}
-				}
-				if acc == nil {
-					acc = top.copy() // unreachable
-				}
-				if !acc.eq(s.in[b]) {
-					s.in[b] = acc
-					changed = true
-				}
-			}
-			o := s.transferBlock(b)
-			if !o.eq(s.out[b]) {
-				s.out[b] = o
-				changed = true
-			}
-		}
-		if !changed && sameLoopGen(s.loopGen, s.loopGenPrev) && sameBlocked(s.blocked, s.blockedPrev) {
-			break
+	s.loopGenPrev = map[[2]*ssa.BasicBlock][]int{}
+	s.allowedPrev = map[*ssa.Call]bool{}
+	stable := false
+	for round := 0; round < 16 && !stable; round++ {
+		s.solve(top)
+		if sameLoopGen(s.loopGen, s.loopGenPrev) && sameCalls(s.allowed, s.allowedPrev) {
+			stable = true
+		} else {
+			s.loopGenPrev, s.allowedPrev = s.loopGen, s.allowed
 		}
 	}
-	// final pass with stable state: examine returns
-	s.resetFacts()
 	missing := map[int]ssa.Instruction{}
-	for _, b := range fn.Blocks {
-		s.transferBlock(b)
+	if !stable {
+		for i := range s.leaves {
+			s.unknown[i] = "definite-assignment rounds did not stabilise"
+		}
 	}
-	s.loopGenPrev, s.blockedPrev = s.loopGen, s.blocked
+	if dbg := os.Getenv("LW_MA_DEBUG"); dbg != "" && strings.Contains(fn.String(), dbg) {
+		fmt.Printf("mustassign %s param %d: %d leaves, %d loops\n", fn, p, n, len(s.loops))
+		for _, l := range s.loops {
+			fmt.Printf("  loop header=%d body=%d exit=%d closed=%v iv=%s bound=%s blocks=%d\n", l.header.Index, l.body.Index, l.exit.Index, l.closed, l.iv.Name(), l.bound, len(l.blocks))
+		}
+		for k, v := range s.loopGen {
+			fmt.Printf("  loopGen %d->%d: %v\n", k[0].Index, k[1].Index, v)
+		}
+		for _, b := range fn.Blocks {
+			fmt.Printf("  block %d in=%v out=%v\n", b.Index, s.in[b], s.out[b])
+		}
+		fmt.Printf("  partial=%v\n", s.partial)
+	}
 	for _, b := range fn.Blocks {
 		ret, ok := b.Instrs[len(b.Instrs)-1].(*ssa.Return)
 		if !ok {
@@ -333,6 +319,57 @@ func (m *MustAssigner) Analyse(fn *ssa.Function, p int) *MustAssignResult {
 	return res
 }
 
+// solve runs the must-dataflow to its greatest fixpoint with the current loopGenPrev/allowedPrev
+// and leaves the facts (and the newly justified loopGen/allowed) of a final stable pass.
+func (s *maState) solve(top bitset) {
+	fn := s.fn
+	n := len(s.leaves)
+	for _, b := range fn.Blocks {
+		s.in[b] = top.copy()
+		s.out[b] = top.copy()
+	}
+	s.in[fn.Blocks[0]] = make(bitset, n)
+	for iter := 0; iter < 200; iter++ {
+		changed := false
+		s.resetFacts()
+		for _, b := range fn.Blocks {
+			if b != fn.Blocks[0] {
+				var acc bitset
+				for _, p := range b.Preds {
+					o := s.out[p].copy()
+					for _, g := range s.edgeLeaves(p, b) {
+						o[g] = true
+					}
+					if acc == nil {
+						acc = o
+					} else {
+						acc = acc.and(o)
+					}
+				}
+				if acc == nil {
+					acc = top.copy() // unreachable
+				}
+				if !acc.eq(s.in[b]) {
+					s.in[b] = acc
+					changed = true
+				}
+			}
+			o := s.transferBlock(b)
+			if !o.eq(s.out[b]) {
+				s.out[b] = o
+				changed = true
+			}
+		}
+		if !changed {
+			break
+		}
+	}
+	s.resetFacts()
+	for _, b := range fn.Blocks {
+		s.transferBlock(b)
+	}
+}
+
 func sameLoopGen(a, b map[[2]*ssa.BasicBlock][]int) bool {
 	if len(a) != len(b) {
 		return false
@@ -355,7 +392,7 @@ func sameLoopGen(a, b map[[2]*ssa.BasicBlock][]int) bool {
 	return true
 }
 
-func sameBlocked(a, b map[*ssa.Call]bool) bool {
+func sameCalls(a, b map[*ssa.Call]bool) bool {
 	if len(a) != len(b) {
 		return false
 	}
@@ -368,13 +405,8 @@ func sameBlocked(a, b map[*ssa.Call]bool) bool {
 }
 
 func (s *maState) resetFacts() {
-	s.loopGenPrev, s.blockedPrev = s.loopGen, s.blocked
-	if s.loopGenPrev == nil {
-		s.loopGenPrev = map[[2]*ssa.BasicBlock][]int{}
-		s.blockedPrev = map[*ssa.Call]bool{}
-	}
 	s.loopGen = map[[2]*ssa.BasicBlock][]int{}
-	s.blocked = map[*ssa.Call]bool{}
+	s.allowed = map[*ssa.Call]bool{}
 	s.taintedLoad = map[ssa.Value]bool{}
 	s.allocTainted = map[*ssa.Alloc]bool{}
 	s.dirtyStore = map[int]ssa.Instruction{}
@@ -731,8 +763,9 @@ func (s *maState) call(c *ssa.Call) {
 			if s.anyStore[li] == nil {
 				s.anyStore[li] = c
 			}
-			if !clean {
-				s.blocked[c] = true
+			if clean {
+				s.allowed[c] = true
+			} else {
 				if s.dirtyStore[li] == nil {
 					s.dirtyStore[li] = c
 				}
@@ -1201,7 +1234,7 @@ func (s *maState) classify(ev ssa.Value, b *ssa.BasicBlock, st bitset) bitset {
 	for cv, gen := range s.callGen {
 		c := cv.(*ssa.Call)
 		if e, has := errOfCall(c); has && e == ev {
-			if !s.blockedPrev[c] {
+			if s.allowedPrev[c] {
 				for _, g := range gen {
 					st[g] = true
 				}
